@@ -292,12 +292,12 @@ def check_selection(item, col, obj, ref, long_trace=False):
     try:
         arm = do_select(name, obj)
     except Exception as e:  # noqa: BLE001
-        col.violation(SIG.format(entry + ".select", K_RAISED), dict(history=hist, hp=hp, arms=n, error=repr(e)[:200]))
+        col.violation(SIG.format(entry + (".choose_arm" if name == "DUCB" else ".select"), K_RAISED), dict(history=hist, hp=hp, arms=n, error=repr(e)[:200]))
         return None
     col.tick(1)
     ok_id = isinstance(arm, (int, np.integer)) and not isinstance(arm, bool) and 0 <= int(arm) < n
     if not ok_id:
-        col.violation(SIG.format(entry + ".select", K_INVALID), dict(history=hist, hp=hp, arms=n, got=repr(arm)))
+        col.violation(SIG.format(entry + (".choose_arm" if name == "DUCB" else ".select"), K_INVALID), dict(history=hist, hp=hp, arms=n, got=repr(arm)))
         return None
     arm = int(arm)
     if proto and not long_trace:
@@ -306,7 +306,7 @@ def check_selection(item, col, obj, ref, long_trace=False):
         col.tick(1)
         try:
             c.select()
-            col.violation(SIG.format(entry + ".select", K_DOUBLE_SELECT), dict(history=hist, hp=hp, arms=n))
+            col.violation(SIG.format(entry + (".choose_arm" if name == "DUCB" else ".select"), K_DOUBLE_SELECT), dict(history=hist, hp=hp, arms=n))
         except Exception:  # noqa: BLE001
             col.outcome("sched_rejected_second_select")
             if fingerprint(c) != before:
@@ -318,7 +318,7 @@ def check_selection(item, col, obj, ref, long_trace=False):
             col.tick(1, ("cover", name, tuple(hp), n, tuple(ref.plays)) if n >= 2 else None)
             missing = sorted(set(range(n)) - set(ref.plays))
             if missing:
-                col.violation(SIG.format(entry + ".select", K_ARM_NOT_PLAYED), dict(history=hist, hp=hp, arms=n, never_played=missing, rounds=R))
+                col.violation(SIG.format(entry + (".choose_arm" if name == "DUCB" else ".select"), K_ARM_NOT_PLAYED), dict(history=hist, hp=hp, arms=n, never_played=missing, rounds=R))
             else:
                 col.outcome("sched_initial_phase_covered_all_arms")
         if rnd >= R:
@@ -328,7 +328,7 @@ def check_selection(item, col, obj, ref, long_trace=False):
             col.tick(1, ("ucb", name, tuple(hp), n, tuple(ref.counted[-WINDOW:])) if dist else None)
             if not is_max(sc, arm):
                 col.violation(
-                    SIG.format(entry + ".select", K_NOT_MAX),
+                    SIG.format(entry + (".choose_arm" if name == "DUCB" else ".select"), K_NOT_MAX),
                     dict(history=hist, hp=hp, arms=n, chosen=arm, reference_scores=sc, round=rnd),
                 )
             if dist:
@@ -351,7 +351,7 @@ def apply_feedback(item, col, obj, ref, arm, r):
     try:
         do_feedback(name, obj, r)
     except Exception as e:  # noqa: BLE001
-        col.violation(SIG.format(entry_of(name) + ".feedback", K_RAISED), dict(plays=ref.plays, reward=r, error=repr(e)[:200]))
+        col.violation(SIG.format(entry_of(name) + (".reward" if name == "DUCB" else ".feedback"), K_RAISED), dict(plays=ref.plays, reward=r, error=repr(e)[:200]))
         return False
     ref.feed(arm, r)
     return True
